@@ -190,97 +190,100 @@ theorem numQ_inpOf (pv : Value) (s : Obj) (hp : plain pv = true) :
     (inpOf pv s).num? = (match pv with | .bool b => some (if b then 1 else 0) | .int i => some i | _ => none) := by
   cases pv <;> simp [inpOf, Wire.Inp.num?, plain] at hp ⊢
 
-theorem ser_unsigned_num (w : Gen.WriterS) (hw : WInv w) (n : Nat) (c : CastMode) (j : Int) :
-    WAgree w
-      (if (c == CastMode.saturated) = true then do
-        let t14 ← toNat (max 0 (min (2 ^ n - 1) j))
-        let writer ← Gen.BitWriter.write_bits w t14 n
-        Except.ok writer
-      else do
-        let t14 ← toNat (iand j (Int.ofNat (1 <<< n) - Int.ofNat 1))
-        let writer ← Gen.BitWriter.write_bits w t14 n
-        Except.ok writer)
-      (Except.ok (encW (Ty.uint n (castOf c)) (Val.int (Wire.castU n (castOf c) j)) (toW w))) := by
-  have hval : (if (c == CastMode.saturated) = true then max 0 (min (2 ^ n - 1) j) else iand j (Int.ofNat (1 <<< n) - Int.ofNat 1))
-      = Wire.castU n (castOf c) j := by
-    cases c
-    · simp only [beq_self_eq_true, if_true, castOf, Wire.castU, Wire.clamp]
-    · rw [if_neg (by decide), iand_mask]; simp only [castOf, Wire.castU]
-  obtain ⟨g', e1, e2, e3⟩ := wr_step w (Wire.castU n (castOf c) j).toNat n hw
-  have hn := toNat_nonneg (castU_nonneg n (castOf c) j)
-  cases c
-  · simp only [beq_self_eq_true, if_true] at hval ⊢
-    rw [hval, hn]
-    simp only [ok_bind, e1]
-    exact ⟨g', rfl, by rw [e2]; simp only [encW, toTwos_castU], e3⟩
-  · rw [if_neg (by decide)] at hval ⊢
-    rw [hval, hn]
-    simp only [ok_bind, e1]
-    exact ⟨g', rfl, by rw [e2]; simp only [encW, toTwos_castU], e3⟩
+/-- `(if c then ok a else ok b)` is `ok (if c then a else b)`: early returns of values inside helpers -/
+theorem ite_ok {ε α : Type} (c : Prop) [Decidable c] (a b : α) :
+    (if c then (Except.ok a : Except ε α) else Except.ok b) = Except.ok (if c then a else b) := by
+  split <;> rfl
+
+/-- the one step all integer / bool / void encoders end in: `write_bits(<non-negative int expression>, n)` -/
+theorem ser_write_int (w : Gen.WriterS) (hw : WInv w) (n : Nat) (X : Int) (W' : W) (hX : 0 ≤ X)
+    (hW : W' = writeBits (toW w) X.toNat n) :
+    WAgree w (Py.toNat X >>= fun t => Gen.BitWriter.write_bits w t n) (.ok W') := by
+  obtain ⟨g', e1, e2, e3⟩ := wr_step w X.toNat n hw
+  rw [toNat_nonneg hX]
+  simp only [ok_bind, e1]
+  exact ⟨g', rfl, by rw [e2, hW], e3⟩
+
+theorem ser_write_nat (w : Gen.WriterS) (hw : WInv w) (n v : Nat) (W' : W) (hW : W' = writeBits (toW w) v n) :
+    WAgree w (Gen.BitWriter.write_bits w v n) (.ok W') := by
+  obtain ⟨g', e1, e2, e3⟩ := wr_step w v n hw
+  exact ⟨g', e1, by rw [e2, hW], e3⟩
+
+theorem iand_mask' (i : Int) (n : Nat) : Py.iand i (((1 <<< n : Nat) : Int) - 1) = i % (2 : Int) ^ n := by
+  have := iand_mask i n
+  simpa only [Int.ofNat_eq_natCast, Nat.cast_one] using this
+
+theorem int_emod_self (a b : Int) : a % b % b = a % b := Int.emod_emod_of_dvd a (dvd_refl b)
+
+/-- Arithmetic side conditions of the integer encoders, for whatever way the source spells saturation / truncation (`max` / `min`,
+    comparison chains, `&` with the mask once or twice): after normalising (`&` with `2^n - 1` is `% 2^n`, `% 2^n % 2^n` is `% 2^n`,
+    model casts unfolded) the goal is a linear fact about ints in which the powers of two are atoms, or needs one
+    `Int.emod_eq_of_lt`.  `hP : 0 < 2^n` and `hQ : 0 < 2^(n-1)` must be in the context. -/
+macro "int_side" : tactic =>
+  `(tactic| (
+      try simp only [WireIO.encW, Wire.toTwos, Wire.castU, Wire.castS, Wire.clamp, castOf, iand_mask, iand_mask', int_emod_self,
+        decide_eq_true_eq, Int.ofNat_eq_natCast, Nat.cast_ofNat, Nat.cast_one, Nat.cast_zero, gt_iff_lt, ge_iff_le]
+      first
+        | done
+        | rfl
+        | omega
+        | exact Int.emod_nonneg _ (by positivity)
+        | (congr 2; first
+            | rfl
+            | omega
+            | (congr 1; omega)
+            | (rw [Int.emod_eq_of_lt (by omega) (by omega)]; try (first | rfl | omega); done)
+            | (symm; rw [Int.emod_eq_of_lt (by omega) (by omega)]; try (first | rfl | omega); done))))
+
+/-- closes an integer / bool case of `_serialize_primitive` once the generated code is unfolded and normalised -/
+macro "ser_int_close" w:term "," hw:term "," n:term : tactic =>
+  `(tactic| first
+      | exact rfl
+      | (apply ser_write_int $w $hw $n <;> int_side)
+      | (apply ser_write_nat $w $hw $n <;> int_side))
 
 theorem ser_unsigned (w : Gen.WriterS) (hw : WInv w) (n : Nat) (c : CastMode) (pv : Value) (hp : plain pv = true) :
     WAgree w (Gen.Codec.serialize_primitive w (.unsigned n c) pv)
       (modelSer (.uint n (castOf c)) (inpOf pv (.unsigned n c)) (toW w)) := by
-  cases pv <;> simp only [plain, Bool.false_eq_true] at hp <;>
+  have hP : (0 : Int) < (2 : Int) ^ n := by positivity
+  cases pv <;> simp only [plain, Bool.false_eq_true] at hp <;> cases c <;>
     codec_simp [Gen.Codec.serialize_primitive, Obj.bit_length, Obj.cast_mode, Obj.inclusive_value_range, Value.isinstance,
-      Value.toInt, modelSer, inpOf, Wire.coerce, Wire.Inp.num?] <;> first | exact rfl | exact ser_unsigned_num w hw n c _
+      Value.toInt, modelSer, inpOf, Wire.coerce, Wire.Inp.num?, ite_ok, castOf] <;> ser_int_close w, hw, n
+
 theorem ser_byte (w : Gen.WriterS) (hw : WInv w) (pv : Value) (hp : plain pv = true) :
     WAgree w (Gen.Codec.serialize_primitive w .byte pv) (modelSer .byte (inpOf pv .byte) (toW w)) := by
-  have key := fun j => ser_unsigned_num w hw 8 .truncated j
-  simp only [castOf, show ((CastMode.truncated == CastMode.saturated) = true) = False from by decide, if_false] at key
+  have hP : (0 : Int) < (2 : Int) ^ 8 := by positivity
   cases pv <;> simp only [plain, Bool.false_eq_true] at hp <;>
     codec_simp [Gen.Codec.serialize_primitive, Obj.bit_length, Obj.cast_mode, Obj.inclusive_value_range, Value.isinstance,
-      Value.toInt, modelSer, inpOf, Wire.coerce, Wire.Inp.num?] <;> first | exact rfl | exact key _
+      Value.toInt, modelSer, inpOf, Wire.coerce, Wire.Inp.num?, ite_ok] <;> ser_int_close w, hw, 8
 
 theorem ser_utf8 (w : Gen.WriterS) (hw : WInv w) (pv : Value) (hp : plain pv = true) :
     WAgree w (Gen.Codec.serialize_primitive w .utf8 pv) (modelSer .utf8 (inpOf pv .utf8) (toW w)) := by
-  have key := fun j => ser_unsigned_num w hw 8 .truncated j
-  simp only [castOf, show ((CastMode.truncated == CastMode.saturated) = true) = False from by decide, if_false] at key
+  have hP : (0 : Int) < (2 : Int) ^ 8 := by positivity
   cases pv <;> simp only [plain, Bool.false_eq_true] at hp <;>
     codec_simp [Gen.Codec.serialize_primitive, Obj.bit_length, Obj.cast_mode, Obj.inclusive_value_range, Value.isinstance,
-      Value.toInt, modelSer, inpOf, Wire.coerce, Wire.Inp.num?] <;> first | exact rfl | exact key _
-
-theorem ser_signed_num (w : Gen.WriterS) (hw : WInv w) (n : Nat) (j : Int) :
-    WAgree w
-      (do
-        let t14 ← toNat (iand (max (-(2 : Int) ^ (n - 1)) (min ((2 : Int) ^ (n - 1) - 1) j)) (Int.ofNat (1 <<< n) - Int.ofNat 1))
-        let writer ← Gen.BitWriter.write_bits w t14 n
-        Except.ok writer)
-      (Except.ok (encW (Ty.sint n .sat) (Val.int (Wire.castS n .sat j)) (toW w))) := by
-  rw [iand_mask, toNat_nonneg (emod_two_pow_nonneg _ n)]
-  obtain ⟨g', e1, e2, e3⟩ := wr_step w ((max (-(2 : Int) ^ (n - 1)) (min ((2 : Int) ^ (n - 1) - 1) j)) % (2 : Int) ^ n).toNat n hw
-  simp only [ok_bind, e1]
-  exact ⟨g', rfl, by rw [e2]; simp only [encW, Wire.toTwos, Wire.castS, Wire.clamp], e3⟩
+      Value.toInt, modelSer, inpOf, Wire.coerce, Wire.Inp.num?, ite_ok] <;> ser_int_close w, hw, 8
 
 theorem ser_signed (w : Gen.WriterS) (hw : WInv w) (n : Nat) (pv : Value) (hp : plain pv = true) :
     WAgree w (Gen.Codec.serialize_primitive w (.signed n .saturated) pv)
       (modelSer (.sint n .sat) (inpOf pv (.signed n .saturated)) (toW w)) := by
+  have hP : (0 : Int) < (2 : Int) ^ n := by positivity
+  have hQ : (0 : Int) < (2 : Int) ^ (n - 1) := by positivity
   cases pv <;> simp only [plain, Bool.false_eq_true] at hp <;>
     codec_simp [Gen.Codec.serialize_primitive, Obj.bit_length, Obj.cast_mode, Obj.inclusive_value_range, Value.isinstance,
-      Value.toInt, modelSer, inpOf, Wire.coerce, Wire.Inp.num?] <;> first | exact rfl | exact ser_signed_num w hw n _
-
-theorem ser_bool_bit (w : Gen.WriterS) (hw : WInv w) (b : Bool) :
-    WAgree w
-      (do
-        let writer ← Gen.BitWriter.write_bits w (if b = true then 1 else 0) 1
-        Except.ok writer)
-      (Except.ok (encW Ty.bool (Val.bool b) (toW w))) := by
-  obtain ⟨g', e1, e2, e3⟩ := wr_step w (if b = true then 1 else 0) 1 hw
-  simp only [ok_bind, e1]
-  exact ⟨g', rfl, by rw [e2]; simp only [encW], e3⟩
+      Value.toInt, modelSer, inpOf, Wire.coerce, Wire.Inp.num?, ite_ok] <;> ser_int_close w, hw, n
 
 theorem ser_boolean (w : Gen.WriterS) (hw : WInv w) (pv : Value) (hp : plain pv = true) :
     WAgree w (Gen.Codec.serialize_primitive w .boolean pv) (modelSer .bool (inpOf pv .boolean) (toW w)) := by
   cases pv <;> simp only [plain, Bool.false_eq_true] at hp <;>
     codec_simp [Gen.Codec.serialize_primitive, Value.isinstance, Value.truthy, modelSer, inpOf, Wire.coerce] <;>
-    first | exact rfl | exact ser_bool_bit w hw _
+    ser_int_close w, hw, 1
 
 /-- `_serialize_primitive` on a void type ignores the value and writes zeros -/
 theorem ser_void (w : Gen.WriterS) (hw : WInv w) (n : Nat) (pv : Value) :
     WAgree w (Gen.Codec.serialize_primitive w (.void n) pv) (modelSer (.void n) (inpOf pv (.void n)) (toW w)) := by
-  obtain ⟨g', e1, e2, e3⟩ := wr_step w 0 n hw
-  codec_simp [Gen.Codec.serialize_primitive, Obj.bit_length, modelSer, Wire.coerce, e1]
-  exact ⟨g', rfl, by rw [e2]; simp only [encW], e3⟩
+  codec_simp [Gen.Codec.serialize_primitive, Obj.bit_length, modelSer, Wire.coerce]
+  ser_int_close w, hw, n
 
 /-- the primitive types of the serializer theorems: no float (its conversion is an uninterpreted region) -/
 def isIntLike : Obj → Bool
@@ -490,11 +493,11 @@ theorem gen_ser_field_value (s : Obj) (hd : isSerData s = true) (hG : SGood s) (
   cases s <;> first
     | (simp [isSerData, isIntLike, isArrObj, isCompObj] at hd; done)
     | (codec_simp [Gen.Codec.serialize_field_value_rec]
-       exact wagree_bind_id (h1 rfl))
+       first | exact (h1 rfl) | exact wagree_bind_id (h1 rfl))
     | (codec_simp [Gen.Codec.serialize_field_value_rec]
-       exact wagree_bind_id (h2 rfl m (by omega)))
+       first | exact (h2 rfl m (by omega)) | exact wagree_bind_id (h2 rfl m (by omega)))
     | (codec_simp [Gen.Codec.serialize_field_value_rec]
-       exact wagree_bind_id (h3 rfl m (by omega)))
+       first | exact (h3 rfl m (by omega)) | exact wagree_bind_id (h3 rfl m (by omega)))
 
 /-- **`_serialize_element`** likewise -/
 theorem gen_ser_element (s : Obj) (hd : isSerData s = true) (hG : SGood s) (w : Gen.WriterS) (hw : WInv w) (pv : Value)
@@ -505,11 +508,11 @@ theorem gen_ser_element (s : Obj) (hd : isSerData s = true) (hG : SGood s) (w : 
   cases s <;> first
     | (simp [isSerData, isIntLike, isArrObj, isCompObj] at hd; done)
     | (codec_simp [Gen.Codec.serialize_element_rec]
-       exact wagree_bind_id (h1 rfl))
+       first | exact (h1 rfl) | exact wagree_bind_id (h1 rfl))
     | (codec_simp [Gen.Codec.serialize_element_rec]
-       exact wagree_bind_id (h2 rfl m (by omega)))
+       first | exact (h2 rfl m (by omega)) | exact wagree_bind_id (h2 rfl m (by omega)))
     | (codec_simp [Gen.Codec.serialize_element_rec]
-       exact wagree_bind_id (h3 rfl m (by omega)))
+       first | exact (h3 rfl m (by omega)) | exact wagree_bind_id (h3 rfl m (by omega)))
 
 /-- the model on a list of element inputs: coerce all, then write all -/
 def modelElems (t : Ty) (xs : List Inp) (w : W) : Except Wire.Err W :=
@@ -521,9 +524,7 @@ def modelElems (t : Ty) (xs : List Inp) (w : W) : Except Wire.Err W :=
 theorem ser_elems_loop (e : Obj) (hd : isSerData e = true) (hG : SGood e) (m : Nat) (hm : depth e + 1 ≤ m) :
     ∀ (xs : List Value), plainList xs = true → ∀ (w : Gen.WriterS), WInv w →
       ∀ (body : Gen.WriterS → Value → Py.M Gen.WriterS),
-      (∀ wr x, body wr x = (do
-        let t ← Gen.Codec.serialize_element_rec m wr e x
-        Except.ok t)) →
+      (∀ wr x, body wr x = Gen.Codec.serialize_element_rec m wr e x) →
       WAgree w (Py.forEach xs w body) (modelElems (tyOf e) (inpList xs e) (toW w)) := by
   intro xs
   induction xs with
@@ -619,43 +620,51 @@ theorem modelSer_varr (te : Ty) (cap : Nat) (x : Inp) (W0 : W) :
       | ok vs => simp only [ok_bind, pure_eq_ok, encW, coerceList_length xs vs hl, Bool.false_eq_true, if_false]
 
 /-- the loop body of `_serialize_array` (compared with the generated term by `rfl`) -/
-@[reducible] def elemBody (m : Nat) (e : Obj) (writer : Gen.WriterS) (element : Value) : Py.M Gen.WriterS := do
-  let t17 ← Gen.Codec.serialize_element_rec m writer e element
-  Except.ok t17
+@[reducible] def elemBody (m : Nat) (e : Obj) (writer : Gen.WriterS) (element : Value) : Py.M Gen.WriterS :=
+  Gen.Codec.serialize_element_rec m writer e element
+
+/-- proves that a Boolean guard of the generated code means what the model's test means, whatever its syntactic form -/
+macro "guard_tac" : tactic =>
+  `(tactic| first
+      | (simp only [decide_eq_true_eq, Bool.not_eq_true', Bool.and_eq_true, Bool.or_eq_true, bne_iff_ne, beq_iff_eq, ne_eq,
+           decide_eq_false_iff_not, Bool.not_eq_true, Nat.not_lt, Nat.not_le, gt_iff_lt, ge_iff_le]; omega)
+      | (simp; omega)
+      | omega
+      | simp)
 
 theorem ser_fixed_tail (e : Obj) (hd : isSerData e = true) (hG : SGood e) (m : Nat) (hm : depth e + 1 ≤ m) (cap : Nat)
-    (xs : List Value) (hp : plainList xs = true) (w : Gen.WriterS) (hw : WInv w) :
+    (xs : List Value) (hp : plainList xs = true) (w : Gen.WriterS) (hw : WInv w) (guard : Bool) (xsI : List Inp) (len : Nat)
+    (hI : xsI = inpList xs e) (hlen : len = xs.length) (hguard : guard = true ↔ xs.length ≠ cap) :
     WAgree w
-      (if (xs.length != cap) = true then Except.error (Err.other "ArrayLengthError")
-       else do
-        let t17 ← Py.forEach xs w (elemBody m e)
-        Except.ok t17)
-      (if ((inpList xs e).length != cap) = true then .error .arrayLength else modelElems (tyOf e) (inpList xs e) (toW w)) := by
-  rw [inpList_length]
-  by_cases h : (xs.length != cap) = true
-  · rw [if_pos h, if_pos h]; rfl
-  · rw [if_neg h, if_neg h]
-    exact wagree_bind_id (ser_elems_loop e hd hG m hm xs hp w hw _ (fun _ _ => rfl))
+      (if guard = true then Except.error (Err.other "ArrayLengthError")
+       else Py.forEach xs w (elemBody m e))
+      (if (len != cap) = true then .error .arrayLength else modelElems (tyOf e) xsI (toW w)) := by
+  subst hI; subst hlen
+  by_cases h : xs.length ≠ cap
+  · rw [if_pos (hguard.mpr h), if_pos (by simpa using h)]; rfl
+  · rw [if_neg (fun hg => h (hguard.mp hg)), if_neg (by simpa using h)]
+    exact ser_elems_loop e hd hG m hm xs hp w hw _ (fun _ _ => rfl)
 
 theorem ser_var_tail (e : Obj) (hd : isSerData e = true) (hG : SGood e) (m : Nat) (hm : depth e + 1 ≤ m) (cap : Nat) (c : CastMode)
-    (xs : List Value) (hp : plainList xs = true) (w : Gen.WriterS) (hw : WInv w) :
+    (xs : List Value) (hp : plainList xs = true) (w : Gen.WriterS) (hw : WInv w) (guard : Bool) (xsI : List Inp) (len lenM lenM' : Nat)
+    (hI : xsI = inpList xs e) (hlen : len = xs.length) (hlenM : lenM = xs.length) (hlenM' : lenM' = xs.length)
+    (hguard : guard = true ↔ xs.length > cap) :
     WAgree w
-      (if (!(decide (0 ≤ xs.length) && decide (xs.length ≤ cap))) = true then Except.error (Err.other "ArrayLengthError")
+      (if guard = true then Except.error (Err.other "ArrayLengthError")
        else do
         let t25 ← (Obj.unsigned (Wire.lenBits cap) c).bit_length
-        let writer ← Gen.BitWriter.write_bits w xs.length t25
-        let t17 ← Py.forEach xs writer (elemBody m e)
-        Except.ok t17)
-      (if (inpList xs e).length > cap then .error .arrayLength
-       else modelElems (tyOf e) (inpList xs e) (writeBits (toW w) (inpList xs e).length (Wire.lenBits cap))) := by
-  rw [inpList_length]
+        let writer ← Gen.BitWriter.write_bits w len t25
+        Py.forEach xs writer (elemBody m e))
+      (if lenM > cap then .error .arrayLength
+       else modelElems (tyOf e) xsI (writeBits (toW w) lenM' (Wire.lenBits cap))) := by
+  subst hI; subst hlen; subst hlenM; subst hlenM'
   by_cases h : xs.length > cap
-  · rw [if_pos (by simp; omega), if_pos h]; rfl
-  · rw [if_neg (by simp; omega), if_neg h]
+  · rw [if_pos (hguard.mpr h), if_pos h]; rfl
+  · rw [if_neg (fun hg => h (hguard.mp hg)), if_neg h]
     obtain ⟨g', e1, e2, e3⟩ := wr_step w xs.length (Wire.lenBits cap) hw
     simp only [Obj.bit_length, pure_eq_ok, ok_bind, e1]
     rw [← e2]
-    exact wagree_bind_id (ser_elems_loop e hd hG m hm xs hp g' e3 _ (fun _ _ => rfl))
+    exact ser_elems_loop e hd hG m hm xs hp g' e3 _ (fun _ _ => rfl)
 
 theorem isinstance_utf8 (e : Obj) : isinstance e .UTF8Type = true ↔ e = .utf8 := by
   cases e <;> codec_simp [] <;> simp
@@ -699,6 +708,16 @@ theorem inpList_ints (bs : List Nat) (e : Obj) :
   | nil => rfl
   | cons b bs ih => simp only [List.map_cons, inpList, inpOf, ih]; rfl
 
+/-- the side conditions of the array tails: the list of model inputs, the lengths, the guard -/
+macro "tail_side" : tactic =>
+  `(tactic| first
+      | rfl
+      | exact (inpList_ints _ _).symm
+      | (simp only [inpList_ints]; done)
+      | (rw [inpList_ints])
+      | (simp [inpList_length]; done)
+      | guard_tac)
+
 /-- **`_serialize_array`**, fixed-length arrays -/
 theorem gen_ser_fixedArray (e : Obj) (cap : Nat) (hs : okT (.fixedArray e cap) = true) (hw : (tyOf (.fixedArray e cap)).wf = true)
     (hd : isSerData e = true) (hG : SGood e) (w : Gen.WriterS) (hwi : WInv w) (pv : Value) (hp : plain pv = true) (fuel : Nat)
@@ -717,22 +736,22 @@ theorem gen_ser_fixedArray (e : Obj) (cap : Nat) (hs : okT (.fixedArray e cap) =
     · exact absurd ((isinstance_utf8 e).mp h) hnu
   have htu : tyOf e ≠ .utf8 := fun h => hnu ((tyOf_eq_utf8 e he).mp h)
   have tail := fun xs hpx => ser_fixed_tail e hd hG m (by omega) cap xs hpx w hwi
-  simp only [tyOf, modelSer_farr]
+  simp only [tyOf, modelSer_farr, inpList_length]
   by_cases hb : e = .byte
   · subst hb
     cases pv with
     | str bs =>
       codec_simp [Gen.Codec.serialize_array_rec, Obj.capacity, Obj.element_type, Value.isinstance, Value.encodeUtf8,
         Value.len, Value.iter, inpOf, Wire.seqOf, tyOf]
-      have := tail _ (plainList_ints bs); rw [inpList_ints] at this; simpa only [tyOf, List.length_map] using this
+      apply tail _ (plainList_ints bs) <;> tail_side
     | bytes bs =>
       codec_simp [Gen.Codec.serialize_array_rec, Obj.capacity, Obj.element_type, Value.isinstance, Value.toList,
         Value.len, Value.iter, inpOf, Wire.seqOf, tyOf]
-      have := tail _ (plainList_ints bs); rw [inpList_ints] at this; simpa only [tyOf, List.length_map] using this
+      apply tail _ (plainList_ints bs) <;> tail_side
     | list xs =>
       codec_simp [Gen.Codec.serialize_array_rec, Obj.capacity, Obj.element_type, Value.isinstance,
         Value.len, Value.iter, inpOf, strip, elemOf, Wire.seqOf, tyOf]
-      exact tail xs hp
+      apply tail xs hp <;> tail_side
     | _ =>
       first
         | (simp only [plain, Bool.false_eq_true] at hp; done)
@@ -747,7 +766,7 @@ theorem gen_ser_fixedArray (e : Obj) (cap : Nat) (hs : okT (.fixedArray e cap) =
     | list xs =>
       codec_simp [Gen.Codec.serialize_array_rec, Obj.capacity, Obj.element_type, Value.isinstance, Value.len, Value.iter, inpOf,
         strip, elemOf, hiu, hib, seqOf_list _ htu, Bool.false_eq_true]
-      exact tail xs hp
+      apply tail xs hp <;> tail_side
     | _ =>
       first
         | (simp only [plain, Bool.false_eq_true] at hp; done)
@@ -767,7 +786,7 @@ theorem gen_ser_varArray (e : Obj) (cap : Nat) (l : Obj) (hs : okT (.varArray e 
   obtain ⟨he, hl⟩ := hs
   obtain ⟨c, rfl⟩ := isUnsignedOf_elim hl
   have tail := fun xs hpx => ser_var_tail e hd hG m (by omega) cap c xs hpx w hwi
-  simp only [tyOf, modelSer_varr]
+  simp only [tyOf, modelSer_varr, inpList_length]
   by_cases hu : e = .utf8
   · subst hu
     cases pv with
@@ -775,13 +794,13 @@ theorem gen_ser_varArray (e : Obj) (cap : Nat) (l : Obj) (hs : okT (.varArray e 
       simp only [plain, Bool.and_eq_true] at hp
       codec_simp [Gen.Codec.serialize_array_rec, Obj.capacity, Obj.element_type, Obj.length_field_type, Value.isinstance,
         Value.encodeUtf8, Value.toList, Value.len, Value.iter, inpOf, Wire.seqOf, tyOf, hp.1, hp.2]
-      have := tail _ (plainList_ints bs); rw [inpList_ints] at this; simpa only [tyOf, List.length_map] using this
+      apply tail _ (plainList_ints bs) <;> tail_side
     | bytes bs =>
       simp only [plain] at hp
       by_cases hv : Wire.validUtf8 bs = true
       · codec_simp [Gen.Codec.serialize_array_rec, Obj.capacity, Obj.element_type, Obj.length_field_type, Value.isinstance,
           Value.decodeUtf8, Py.decodeUtf8, Value.toList, Value.len, Value.iter, inpOf, Wire.seqOf, tyOf, hp, hv]
-        have := tail _ (plainList_ints bs); rw [inpList_ints] at this; simpa only [tyOf, List.length_map] using this
+        apply tail _ (plainList_ints bs) <;> tail_side
       · have hv' : Wire.validUtf8 bs = false := by simpa using hv
         codec_simp [Gen.Codec.serialize_array_rec, Obj.capacity, Obj.element_type, Obj.length_field_type, Value.isinstance,
           Value.decodeUtf8, Py.decodeUtf8, inpOf, Wire.seqOf, tyOf, hp, hv', Bool.false_eq_true]
@@ -802,15 +821,15 @@ theorem gen_ser_varArray (e : Obj) (cap : Nat) (l : Obj) (hs : okT (.varArray e 
       | str bs =>
         codec_simp [Gen.Codec.serialize_array_rec, Obj.capacity, Obj.element_type, Obj.length_field_type, Value.isinstance,
           Value.encodeUtf8, Value.len, Value.iter, inpOf, Wire.seqOf, tyOf]
-        have := tail _ (plainList_ints bs); rw [inpList_ints] at this; simpa only [tyOf, List.length_map] using this
+        apply tail _ (plainList_ints bs) <;> tail_side
       | bytes bs =>
         codec_simp [Gen.Codec.serialize_array_rec, Obj.capacity, Obj.element_type, Obj.length_field_type, Value.isinstance,
           Value.toList, Value.len, Value.iter, inpOf, Wire.seqOf, tyOf]
-        have := tail _ (plainList_ints bs); rw [inpList_ints] at this; simpa only [tyOf, List.length_map] using this
+        apply tail _ (plainList_ints bs) <;> tail_side
       | list xs =>
         codec_simp [Gen.Codec.serialize_array_rec, Obj.capacity, Obj.element_type, Obj.length_field_type, Value.isinstance,
           Value.len, Value.iter, inpOf, strip, elemOf, Wire.seqOf, tyOf]
-        exact tail xs hp
+        apply tail xs hp <;> tail_side
       | _ =>
         first
           | (simp only [plain, Bool.false_eq_true] at hp; done)
@@ -825,7 +844,7 @@ theorem gen_ser_varArray (e : Obj) (cap : Nat) (l : Obj) (hs : okT (.varArray e 
       | list xs =>
         codec_simp [Gen.Codec.serialize_array_rec, Obj.capacity, Obj.element_type, Obj.length_field_type, Value.isinstance,
           Value.len, Value.iter, inpOf, strip, elemOf, hiu, hib, seqOf_list _ htu, Bool.false_eq_true]
-        exact tail xs hp
+        apply tail xs hp <;> tail_side
       | _ =>
         first
           | (simp only [plain, Bool.false_eq_true] at hp; done)
@@ -1510,8 +1529,7 @@ def modelFields (ts : List Ty) (i : Nat) (kvs : List (Nat × Inp)) (w : W) : Exc
   if isinstance field Cls.PaddingField = true then do
       let t34 ← field.data_type
       let t35 ← t34.bit_length
-      let writer ← Gen.BitWriter.write_bits writer 0 t35
-      Except.ok writer
+      Gen.BitWriter.write_bits writer 0 t35
     else do
       let t36 ← field.name
       let t37 ← (Value.dict kvs).getD t36 Value.sentinel
@@ -1519,12 +1537,10 @@ def modelFields (ts : List Ty) (i : Nat) (kvs : List (Nat × Inp)) (w : W) : Exc
           let t38 ← field.data_type
           let t39 ← Gen.Codec.default_value t38
           let t40 ← field.data_type
-          let writer ← Gen.Codec.serialize_field_value_rec m writer t40 t39
-          Except.ok writer
+          Gen.Codec.serialize_field_value_rec m writer t40 t39
         else do
           let t40 ← field.data_type
-          let writer ← Gen.Codec.serialize_field_value_rec m writer t40 t37
-          Except.ok writer
+          Gen.Codec.serialize_field_value_rec m writer t40 t37
 
 /-- what the structure loop needs to know about the type of a field -/
 def FieldReady (d : Obj) : Prop :=
@@ -1712,14 +1728,16 @@ theorem allFields_of_union : ∀ (fs : List Obj), okFs fs = true → Wire.noVoid
         rw [hok.1.2] at hnv; exact absurd hnv.1 (by simp)
       | _ => simp [okFs] at hok
 
-/-- the search loop of the union branch: `for idx, f in enumerate(schema.fields): if f.name == key: …; break` -/
-theorem search_loop (k : String) : ∀ (fs : List Obj), allFields fs = true → ∀ (j : Nat) (st : Option Obj × Option Nat)
-    (body : Option Obj × Option Nat → Nat × Obj → Py.M (Bool × Option Obj × Option Nat)),
+/-- the search loop of the union branch (`for idx, f in enumerate(schema.fields): if f.name == key: …; break`, or
+    `next((… for idx, f in enumerate(schema.fields) if f.name == key), None)`), whatever it remembers of the hit (`F`: the index, the
+    field, or both) -/
+theorem search_loop (k : String) {σ : Type} (F : Nat × Obj → σ) : ∀ (fs : List Obj), allFields fs = true → ∀ (j : Nat) (st : σ)
+    (body : σ → Nat × Obj → Py.M (Bool × σ)),
     (∀ x y, body x y = (do
       let t14 ← y.2.name
-      if (t14 == k) = true then Except.ok (true, some y.2, some y.1) else Except.ok (false, x.1, x.2))) →
+      if (t14 == k) = true then Except.ok (true, F y) else Except.ok (false, x))) →
     Py.forEachB (Py.enumerateFrom j fs) st body =
-      .ok (if k ∈ fieldNames fs then (some (.field (fieldType k fs) k), some (fieldIdx k fs j)) else st)
+      .ok (if k ∈ fieldNames fs then F (fieldIdx k fs j, .field (fieldType k fs) k) else st)
   | [], _, j, st, _, _ => by simp [Py.enumerateFrom, Py.forEachB, fieldNames]
   | f :: fs, hall, j, st, body, hb => by
       cases f with
@@ -1732,7 +1750,7 @@ theorem search_loop (k : String) : ∀ (fs : List Obj), allFields fs = true → 
           simp only [beq_self_eq_true, if_true, ok_bind, true_or]
         · have hne : ¬ k = n := fun e => hn (by simp [e])
           simp only [hn, Bool.false_eq_true, if_false, ok_bind, hne, false_or]
-          rw [search_loop k fs hall (j + 1) st body hb]
+          rw [search_loop k F fs hall (j + 1) st body hb]
       | _ => simp [allFields] at hall
 
 theorem all_names_mapM : ∀ (fs : List Obj), allFields fs = true → ∃ l, List.mapM (fun f => Obj.name f) fs = .ok l
@@ -1765,12 +1783,11 @@ theorem gen_ser_union (fs : List Obj) (t : Obj) (a : Nat) (nm : String) (hs : ok
         List.length_nil]
       exact rfl
     · simp only [plain, plainDict, Bool.and_true] at hp
-      have hsl := search_loop k fs hall 0 (none, none) _ (fun x y => rfl)
       codec_simp [Gen.Codec.serialize_composite_rec, Obj.fields, Obj.alignment_requirement, Value.isinstance, Value.len,
         Obj.full_name, Obj.tag_field_type, Obj.bit_length, Value.firstKey, Value.keys, Value.getItem, Py.dictLookup,
         List.length_singleton, List.map_cons, List.map_nil, Py.enumerate, modelSer, inpOf, strip, fieldsOf, inpDict, tyOf,
         Wire.coerce, tysOf_length]
-      rw [hsl]
+      rw [search_loop k _ fs hall 0 _ _ (fun x y => rfl)]
       by_cases hk : k ∈ fieldNames fs
       · have hlt := fieldIdx_lt k fs 0 hk
         simp only [Nat.zero_add] at hlt
@@ -1786,7 +1803,7 @@ theorem gen_ser_union (fs : List Obj) (t : Obj) (a : Nat) (nm : String) (hs : ok
         have hfv := gen_ser_field_value _ hsd hG g1 e3 v hp m (by omega)
         unfold modelSer at hfv
         codec_simp [hk, Option.isNone, Option.isSome, Py.optGet, e1, Obj.data_type, hlt, coerceVariant_get _ _ _ _ hty,
-          beq_self_eq_true, assert_true]
+          beq_self_eq_true, assert_true, Py.index, hget]
         cases hcv : Wire.coerce (tyOf (fieldType k fs)) (inpOf v (fieldType k fs)) with
         | error e =>
           rw [hcv] at hfv
@@ -1955,14 +1972,24 @@ theorem gen_serialize (s : Obj) (hs : okT s = true) (hc : isCompObj s = true) (h
     have hsu := hs'.1.1.2
     cases hdr with
     | true =>
-      have hA := (hG ⟨[], 0⟩ winv_empty pv hp).2.2 rfl (Py.recursionLimit + 1) (by omega)
+      -- with the header the entry point is the DelimitedType branch of `_serialize_composite` on a fresh writer, whether it spells
+      -- that branch out once more (one frame less) or delegates to it
+      have key : ∃ F, depth (.delimited i h x a) ≤ F ∧ Gen.Codec.serialize (.delimited i h x a) pv true false =
+          (Gen.Codec.serialize_composite_rec F ⟨[], 0⟩ (.delimited i h x a) pv >>= fun g => Except.ok g.buffer) := by
+        first
+          | (refine ⟨Py.recursionLimit, hd, ?_⟩
+             codec_simp [Gen.Codec.serialize, Gen.Codec.serialize_composite, Gen.BitWriter.init, Gen.BitWriter.finish, Obj.inner_type,
+               Bool.false_eq_true, Bool.not_true, Bool.and_false, bind_assoc]
+             done)
+          | (refine ⟨Py.recursionLimit + 1, by omega, ?_⟩
+             codec_simp [Gen.Codec.serialize, Gen.Codec.serialize_composite, Gen.BitWriter.init, Gen.BitWriter.finish, Obj.inner_type,
+               Obj.delimiter_header_type, Gen.Codec.serialize_composite_rec, Bool.false_eq_true, Bool.not_true, Bool.and_false,
+               bind_assoc]
+             done)
+      obtain ⟨F, hF, heq⟩ := key
+      have hA := (hG ⟨[], 0⟩ winv_empty pv hp).2.2 rfl F hF
       have := serAgree_of_wagree hA
       simp only [hdl, Bool.not_true, Bool.and_false, Bool.false_eq_true, if_false, if_true]
-      have heq : Gen.Codec.serialize (.delimited i h x a) pv true false =
-          (Gen.Codec.serialize_composite_rec (Py.recursionLimit + 1) ⟨[], 0⟩ (.delimited i h x a) pv >>=
-            fun g => Except.ok g.buffer) := by
-        codec_simp [Gen.Codec.serialize, Gen.Codec.serialize_composite, Gen.BitWriter.init, Gen.BitWriter.finish, Obj.inner_type,
-          Obj.delimiter_header_type, Gen.Codec.serialize_composite_rec, Bool.false_eq_true, bind_assoc]
       rw [heq]
       exact this
     | false =>
